@@ -6,9 +6,9 @@ Import ListNotations.
 Local Open Scope Z_scope.
 
 (* ---- reachability ---------------------------------------------------------------------- *)
-Inductive breach (mcap : Z) (progs : tid -> list op) (now0 : Z) : bst -> Prop :=
-| breach_init : breach mcap progs now0 (b_init progs now0)
-| breach_step s l s' : breach mcap progs now0 s -> blstep mcap s l = Some s' -> breach mcap progs now0 s'.
+Inductive breach (fx : bool) (mcap : Z) (progs : tid -> list op) (now0 : Z) : bst -> Prop :=
+| breach_init : breach fx mcap progs now0 (b_init progs now0)
+| breach_step s l s' : breach fx mcap progs now0 s -> blstep fx mcap s l = Some s' -> breach fx mcap progs now0 s'.
 
 (* ---- the part of the state the ledger invariants talk about ------------------------------ *)
 Record core : Type := mkCore {
@@ -78,7 +78,7 @@ Definition c_set_closed (c : core) : core :=
 Definition c_set_now (c : core) (x : Z) : core :=
   mkCore (c_pc c) (c_cnt c) (c_pushed c) (c_popped c) (c_q c) (c_log c) (c_closed c) x (c_prog c) (c_sw c) (c_rw c) (c_head c).
 
-Definition cstep (mcap : Z) (c : core) (t : tid) (to got : bool) : option core :=
+Definition cstep (fx : bool) (mcap : Z) (c : core) (t : tid) (to got : bool) : option core :=
     match c_pc c t with
     | BIdle =>
         match c_prog c t with
@@ -115,7 +115,11 @@ Definition cstep (mcap : Z) (c : core) (t : tid) (to got : bool) : option core :
     | BS_exp v e =>
         if expired (c_now c) e then Some (c_finish c t KSend (Some v) RTimeout e O)
         else Some (core_goto c t (BS_reg v e))
-    | BS_reg v e => Some (core_goto (c_set_sw c (c_sw c + 1)) t (BS_wait v e))
+    | BS_reg v e => Some (core_goto (c_set_sw c (c_sw c + 1)) t (if fx then BS_rc v e else BS_wait v e))
+    | BS_rc v e => if c_closed c then Some (core_goto c t (BS_unreg v e false)) else Some (core_goto c t (BS_rct v e))
+    | BS_rct v e => Some (core_goto c t (BS_rch v e (c_head c + Z.of_nat (length (c_q c)))))
+    | BS_rch v e tl =>
+        if u64_sub tl (c_head c) <? mcap then Some (core_goto c t (BS_unreg v e false)) else Some (core_goto c t (BS_wait v e))
     | BS_wait v e => if got then Some (core_goto c t (BS_unreg v e false)) else Some (core_goto c t (BS_slp v e))
     | BS_slp v e =>
         if to then Some (core_goto c t (BS_unreg v e true))
@@ -144,7 +148,11 @@ Definition cstep (mcap : Z) (c : core) (t : tid) (to got : bool) : option core :
     | BR_exp e =>
         if expired (c_now c) e then Some (c_finish c t KRecv None RTimeout e O)
         else Some (core_goto c t (BR_reg e))
-    | BR_reg e => Some (core_goto (c_set_rw c (c_rw c + 1)) t (BR_wait e))
+    | BR_reg e => Some (core_goto (c_set_rw c (c_rw c + 1)) t (if fx then BR_rc e else BR_wait e))
+    | BR_rc e => if c_closed c then Some (core_goto c t (BR_unreg e false)) else Some (core_goto c t (BR_rct e))
+    | BR_rct e => Some (core_goto c t (BR_rch e (c_head c + Z.of_nat (length (c_q c)))))
+    | BR_rch e tl =>
+        if tl =? c_head c then Some (core_goto c t (BR_wait e)) else Some (core_goto c t (BR_unreg e false))
     | BR_wait e => if got then Some (core_goto c t (BR_unreg e false)) else Some (core_goto c t (BR_slp e))
     | BR_slp e =>
         if to then Some (core_goto c t (BR_unreg e true))
@@ -172,9 +180,9 @@ Proof. reflexivity. Qed.
 Lemma set_b_w_core s x : core_of (set_b_w s x) = core_of s.
 Proof. reflexivity. Qed.
 
-Lemma bstep_core mcap s t s' :
-  bstep mcap s t = Some s' ->
-  exists to got, cstep mcap (core_of s) t to got = Some (core_of s') /\
+Lemma bstep_core fx mcap s t s' :
+  bstep fx mcap s t = Some s' ->
+  exists to got, cstep fx mcap (core_of s) t to got = Some (core_of s') /\
                  (to = true -> b_w s t = Woken true).
 Proof.
   unfold bstep, cstep. intros H.
@@ -215,7 +223,7 @@ Qed.
 Definition sending (p : bpc) : option (val * bool) :=       (* (value, slot already claimed?) *)
   match p with
   | BS_cl v _ | BS_rt v _ | BS_rh v _ _ | BS_push v _ | BS_exp v _ | BS_reg v _ | BS_wait v _
-  | BS_slp v _ | BS_unreg v _ _ => Some (v, false)
+  | BS_slp v _ | BS_unreg v _ _ | BS_rc v _ | BS_rct v _ | BS_rch v _ _ => Some (v, false)
   | BS_pub v _ | BS_lrw v _ | BS_sig v _ => Some (v, true)
   | _ => None
   end.
@@ -513,7 +521,7 @@ Proof. intros I. eapply inv_frame; eauto. Qed.
 Lemma inv_set_now c x : Inv c -> Inv (c_set_now c x).
 Proof. intros I. eapply inv_frame; eauto. Qed.
 
-Lemma inv_cstep mcap c t to got c' : Inv c -> cstep mcap c t to got = Some c' -> Inv c'.
+Lemma inv_cstep fx mcap c t to got c' : Inv c -> cstep fx mcap c t to got = Some c' -> Inv c'.
 Proof.
   intros I H. unfold cstep in H.
   destruct (c_pc c t) eqn:Epc.
@@ -539,20 +547,20 @@ Proof.
     intros _ _. destruct I. eapply i_np0; eauto.
 Qed.
 
-Theorem inv_reach mcap progs now0 s : breach mcap progs now0 s -> Inv (core_of s).
+Theorem inv_reach fx mcap progs now0 s : breach fx mcap progs now0 s -> Inv (core_of s).
 Proof.
   induction 1 as [|s l s' R IH H].
   - apply inv_init.
   - destruct l as [t|t|d]; cbn in H.
-    + destruct (bstep_core _ _ _ _ H) as (to & got & Hc & _). eapply inv_cstep; eauto.
+    + destruct (bstep_core _ _ _ _ _ H) as (to & got & Hc & _). eapply inv_cstep; eauto.
     + rewrite (btimer_core _ _ _ H). exact IH.
     + inversion H; subst. change (Inv (c_set_now (core_of s) (b_now s + Z.of_nat d))). apply inv_set_now. exact IH.
 Qed.
 
 (* ---- the clauses of C09 for the buffered channel ------------------------------------------- *)
 Section BufferedClauses.
-  Variables (mcap : Z) (progs : tid -> list op) (now0 : Z).
-  Notation reach := (breach mcap progs now0).
+  Variables (fx : bool) (mcap : Z) (progs : tid -> list op) (now0 : Z).
+  Notation reach := (breach fx mcap progs now0).
 
   (* the value v was the argument of a send / try_send call that has started *)
   Definition b_offered (s : bst) (v : val) : Prop := (snd v < b_cnt s (fst v))%nat.
@@ -573,7 +581,7 @@ Section BufferedClauses.
     (forall v, In v (b_popped s) -> In v (recv_vals (b_log s)) \/ b_in_hand s v) /\
     (forall v, b_in_hand s v -> In v (b_popped s) /\ ~ In v (recv_vals (b_log s))).
   Proof.
-    intros R. destruct (inv_reach _ _ _ _ R). cbn in *.
+    intros R. destruct (inv_reach _ _ _ _ _ R). cbn in *.
     rewrite <- i_ledger0. repeat split; auto.
     - intros v (e & Hin & Hk & Hv & Hr). rewrite Forall_forall in i_log0.
       destruct (i_log0 _ Hin Hk) as (n & A & _ & C). rewrite Hv in A. inversion A. apply C. exact Hr.
@@ -586,7 +594,7 @@ Section BufferedClauses.
   Theorem buf_false_not_delivered s v r : reach s -> b_send_ret s v r -> r <> ROk ->
     ~ In v (b_pushed s) /\ ~ In v (b_popped s) /\ ~ In v (recv_vals (b_log s)).
   Proof.
-    intros R (e & Hin & Hk & Hv & Hr) Hne. destruct (inv_reach _ _ _ _ R). cbn in *.
+    intros R (e & Hin & Hk & Hv & Hr) Hne. destruct (inv_reach _ _ _ _ _ R). cbn in *.
     rewrite Forall_forall in i_log0. destruct (i_log0 _ Hin Hk) as (n & A & _ & C).
     rewrite Hv in A. inversion A. subst v.
     assert (N : ~ In (e_t e, n) (b_pushed s)) by (intros X; apply Hne; rewrite <- Hr; apply C; exact X).
@@ -598,7 +606,7 @@ Section BufferedClauses.
   Theorem buf_no_invention s v : reach s ->
     In v (recv_vals (b_log s)) \/ In v (b_popped s) -> b_offered s v /\ In v (b_pushed s).
   Proof.
-    intros R H. destruct (inv_reach _ _ _ _ R). cbn in *.
+    intros R H. destruct (inv_reach _ _ _ _ _ R). cbn in *.
     assert (Hp : In v (b_pushed s)).
     { rewrite i_ledger0. apply in_or_app. left. destruct H; auto. }
     split; auto. destruct v as [t n]. apply i_bound0. exact Hp.
@@ -609,7 +617,7 @@ Section BufferedClauses.
   Theorem buf_fifo s : reach s ->
     b_pushed s = b_popped s ++ map fst (b_q s) /\ sender_sorted (b_pushed s) /\ sender_sorted (b_popped s).
   Proof.
-    intros R. destruct (inv_reach _ _ _ _ R). cbn in *. repeat split; auto.
+    intros R. destruct (inv_reach _ _ _ _ _ R). cbn in *. repeat split; auto.
     intros l1 x l2 E y Hy Hf. eapply (i_sorted0 l1 x (l2 ++ map fst (b_q s))); eauto.
     rewrite i_ledger0, E, <- app_assoc. reflexivity.
   Qed.
@@ -617,7 +625,7 @@ Section BufferedClauses.
   (* a send/recv that reports "closed" has seen m_closed == true *)
   Theorem buf_closed_reason s e : reach s -> In e (b_log s) -> e_r e = RClosed -> b_closed s = true.
   Proof.
-    intros R Hin Hr. destruct (inv_reach _ _ _ _ R). cbn in *. rewrite Forall_forall in i_closed0. eauto.
+    intros R Hin Hr. destruct (inv_reach _ _ _ _ _ R). cbn in *. rewrite Forall_forall in i_closed0. eauto.
   Qed.
 
   (* drain after close: a recv reports "closed" only after a pop that found the ring empty; every
@@ -625,7 +633,7 @@ Section BufferedClauses.
   Theorem buf_drain_after_close s e : reach s -> In e (b_log s) -> e_k e = KRecv -> e_r e = RClosed ->
     firstn (e_aux e) (b_pushed s) = firstn (e_aux e) (b_popped s).
   Proof.
-    intros R Hin Hk Hr. destruct (inv_reach _ _ _ _ R). cbn in *. rewrite Forall_forall in i_aux0.
+    intros R Hin Hk Hr. destruct (inv_reach _ _ _ _ _ R). cbn in *. rewrite Forall_forall in i_aux0.
     specialize (i_aux0 _ Hin Hk Hr). rewrite i_ledger0. rewrite firstn_app.
     replace (e_aux e - length (b_popped s))%nat with O by lia. cbn. rewrite app_nil_r. reflexivity.
   Qed.
